@@ -617,6 +617,22 @@ class GLRParser(Parser):
                     if self.debug_trace:
                         self._trace_step_kill(head)
 
+    def default_error_recovery(self, head):
+        """
+        The default recovery strategy for GLR. Searches from the current
+        location for expected terminals. As lexical ambiguity is not an error
+        in GLR, finding the lookaheads (and forking) at the new position is
+        left to the main loop.
+
+        Returns True if successful, False otherwise.
+        """
+        while head.position < len(head.input_str):
+            head.position += 1
+            if self._next_tokens(head):
+                head.token_ahead = None
+                return True
+        return False
+
     def _remove_transient_state(self):
         """
         Delete references to transient parser objects to lower memory
